@@ -71,8 +71,11 @@ pub enum AtomKind {
     CmpTwoQueries,
     /// existence through a negative index, `@.l[-1]`
     ExistsNegIndex,
+    /// existence of a nodelist (`@.w.*`, `@.w[0:2]`, `@.w..*`): true for one or several nodes whatever
+    /// their values are, empty strings / arrays / objects included
+    ExistsSeveral,
 }
-pub const KINDS: [AtomKind; 12] = [
+pub const KINDS: [AtomKind; 13] = [
     AtomKind::Exists,
     AtomKind::CmpEq,
     AtomKind::Match,
@@ -85,6 +88,7 @@ pub const KINDS: [AtomKind; 12] = [
     AtomKind::NestedUnion,
     AtomKind::CmpTwoQueries,
     AtomKind::ExistsNegIndex,
+    AtomKind::ExistsSeveral,
 ];
 
 fn nm(s: &str) -> StrLit {
@@ -180,6 +184,20 @@ fn atom_expr(kind: AtomKind, i: usize) -> (Expr, bool) {
                 Box::new(Cmpable::Sing(Sing { abs: false, steps: vec![SingStep::Name(nm(&format!("o{}", i)), true)] })),
             ),
             false,
+        ),
+        AtomKind::ExistsSeveral => (
+            Expr::Test(
+                false,
+                Box::new(TestE::Q(rel(vec![
+                    nseg(&format!("w{}", i)),
+                    match i % 3 {
+                        0 => Seg { desc: false, sels: vec![Sel::Wild], dot: true },
+                        1 => Seg { desc: false, sels: vec![Sel::Slice(Some(0), Some(2), None, false)], dot: false },
+                        _ => Seg { desc: true, sels: vec![Sel::Wild], dot: false },
+                    },
+                ]))),
+            ),
+            true,
         ),
         AtomKind::ExistsNegIndex => (
             Expr::Test(
@@ -333,6 +351,20 @@ fn atom_members(src: &mut Src, kind: AtomKind, i: usize, truth: bool, out: &mut 
                         out.push((p, J::Str("4".into())));
                         out.push((o, J::Int(4)));
                     }
+                }
+            }
+        }
+        AtomKind::ExistsSeveral => {
+            let w = format!("w{}", i);
+            let hollow = [J::Str("".into()), J::Arr(vec![]), J::Obj(vec![]), J::Null, J::Bool(false), J::Int(0)];
+            if truth {
+                let n = 1 + src.below(3);
+                out.push((w, J::Arr((0..n).map(|_| src.pick(&hollow).clone()).collect())));
+            } else {
+                match src.below(3) {
+                    0 => {}
+                    1 => out.push((w, J::Arr(vec![]))),
+                    _ => out.push((w, J::Str("ab".into()))),
                 }
             }
         }
